@@ -147,10 +147,10 @@ extern "C" {
     size_t ddimY;
     size_t ddimZ;
     size_t ddimT;
-    size_t incX;
-    size_t incY;
-    size_t incZ;
-    size_t incT;
+    ptrdiff_t incX; /*!< Signed: stepping to the next row goes backwards along the inner axes */
+    ptrdiff_t incY;
+    ptrdiff_t incZ;
+    ptrdiff_t incT;
     void (*update)(void*); /*!< Updater */
   } fff_array_iterator;
 
